@@ -19,7 +19,9 @@ from fimverif.engines import store, values
 ID = "C01"
 RULE = ("Domain A: Hypothesis-generated raw property graphs (1-8 nodes, 0-12 edges, distinct non-empty NodeIDs of "
         "XML-legal text, classes/relations from the FIM vocabulary or arbitrary identifiers, 0-5 extra str/int "
-        "properties per node and edge with 'hard' text boosted, 0-2 unrelated graphs already in the store) on both "
+        "properties per node and edge with 'hard' text boosted, 0-2 other graphs already in the store, in a share of "
+        "the shared-store cases joined to the model first by merge_nodes / re-homing one node, which leaves edges "
+        "between the graphs) on both "
         "store flavours; each serialized to GraphML and JSON node-link and re-imported through "
         "import_graph_from_string (fresh id / None id / same id), _string_direct, _from_file, _from_file_direct. "
         "Domain B: models built by generated topology programs (experiment and substrate flavour) round-tripped "
@@ -67,9 +69,16 @@ def raw_desc(draw, max_nodes=8, max_edges=12, simple_ids=False):
 
 @st.composite
 def _raw_case(draw):
-    return {"kind": "raw", "fl": draw(st.sampled_from(["shared", "shared", "disjoint"])),
+    case = {"kind": "raw", "fl": draw(st.sampled_from(["shared", "shared", "disjoint"])),
             "desc": draw(raw_desc()),
             "pre": draw(st.lists(raw_desc(max_nodes=3, max_edges=2, simple_ids=True), max_size=2))}
+    if case["fl"] == "shared" and case["pre"] and draw(st.integers(0, 2)) == 0:
+        # the model under test is joined to a neighbour graph first: merge_nodes with a twin node of that graph, or
+        # one of the neighbour's nodes re-homed into it - both leave edges between the two graphs in the store
+        case["cross"] = draw(st.lists(st.fixed_dictionaries({
+            "how": st.sampled_from(["merge", "merge", "rehome"]), "pre": st.integers(0, len(case["pre"]) - 1),
+            "j": st.integers(0, 2), "i": st.integers(0, 7)}), min_size=1, max_size=2))
+    return case
 
 
 @st.composite
@@ -328,16 +337,41 @@ def run_case(case):
 
     imp = store.make_importer(fl)
     protect = []
-    for k, d in enumerate(case["pre"]):
+    desc = case["desc"]
+    pre = [json.loads(json.dumps(d)) for d in case["pre"]]
+    gids = [n["id"] for n in desc["nodes"]]
+    cross = []
+    for c in case.get("cross", []) if fl == "shared" else []:
+        d = pre[c["pre"] % len(pre)]
+        j, i = c["j"] % len(d["nodes"]), c["i"] % len(gids)
+        if c["how"] == "merge":
+            # the neighbour's node j becomes the twin (same NodeID) of the model's node i
+            if all(n["id"] != gids[i] for k, n in enumerate(d["nodes"]) if k != j) and \
+                    not any(x[0] == "merge" and x[2] == gids[i] for x in cross):
+                d["nodes"][j]["id"] = gids[i]
+                cross.append(("merge", c["pre"] % len(pre), gids[i]))
+        elif d["nodes"][j]["id"] not in gids and len(d["nodes"]) >= 2:
+            cross.append(("rehome", c["pre"] % len(pre), d["nodes"][j]["id"]))
+    for k, d in enumerate(pre):
         store.load_raw(store.graph_handle(imp, f"pre{k}"), d)
         protect.append(f"pre{k}")
     g = store.graph_handle(imp, "G")
-    store.load_raw(g, case["desc"])
-    if store.canon(imp, "G") != store.canon_desc(case["desc"]):
+    store.load_raw(g, desc)
+    if store.canon(imp, "G") != store.canon_desc(desc):
         raise RuntimeError("harness: loaded graph differs from its description")
+    done = set()
+    for how, k, nid in cross:
+        if (k, nid) in done or store.canon(imp, f"pre{k}") is None or nid not in store.canon(imp, f"pre{k}")["nodes"]:
+            continue
+        done.add((k, nid))
+        if how == "merge":
+            g.merge_nodes(node_id=nid, other_graph=store.graph_handle(imp, f"pre{k}"))
+        else:
+            store.graph_handle(imp, f"pre{k}").update_node_property(node_id=nid, prop_name=store.GRAPH_ID, prop_val="G")
+            gids.append(nid)
+    protect = [p for p in protect if store.canon(imp, p) is not None]
     roundtrip_battery(imp, fl, "G", viol, protect=protect)
 
-    desc = case["desc"]
     allvals = [x for n in desc["nodes"] for x in n["props"].values()] + \
               [x for e in desc["edges"] for x in e["props"].values()] + [n["id"] for n in desc["nodes"]]
     has_int = any(isinstance(x, int) for x in allvals)
@@ -358,6 +392,8 @@ def run_case(case):
         labels.append("mixed-typing")
     if case["pre"]:
         labels.append("pre-stored")
+    if done:
+        labels.append("joined-to-neighbour-graph")
     nt = len(desc["nodes"]) >= 2 and len(desc["edges"]) >= 1 and (has_int or has_hard)
     if nt:
         labels.append("nontrivial")
